@@ -880,14 +880,11 @@ func runC10(c *Ctx) {
 		default:
 			continue
 		}
-		got := 0
-		for _, ln := range errLines {
-			if strings.Contains(ln, "write error") && strings.Contains(ln, br.errText) {
-				got++
-			}
-		}
-		if got != want {
-			c.Fail("C10: a failing sink or core was not reported on the error output once per affected entry", "branch %d (%s, mode %d, %q): %d entries failed there, error output has %d report lines; error output: %q", bi, []string{"Lock", "Combine", "custom-core"}[br.kind], br.mode, br.errText, want, got, clip(errOut.Data))
+		// the report's wording and layout are zap's business: what is asked is
+		// that the failure (its error text) shows up once for every entry it hit
+		got := strings.Count(string(errOut.Data), br.errText)
+		if got < want {
+			c.Fail("C10: a failing sink or core was not reported on the error output once per affected entry", "branch %d (%s, mode %d, %q): %d entries failed there, the error output mentions the failure %d times; error output: %q", bi, []string{"Lock", "Combine", "custom-core"}[br.kind], br.mode, br.errText, want, got, clip(errOut.Data))
 			return
 		}
 	}
